@@ -440,6 +440,33 @@ def check_c09(prog, rep, tier, cfg):
     gb = prog.body(RS + "::get_newline_str")
     if gb is not None:
         rep.check(canon(gb, {"k": "copy", "place": {"l": 0, "p": []}}) in ("arg1.newline_str",), R, "getter-returns-field", "get_newline_str does not return self.newline_str")
+    # ---------------------------------------------------------------- C09.d the wrapper's cached content lengths follow the normalised text
+    R = "C09.d"
+    of = prog.body(OLF_FMT)
+    TL = OLF + "TokenLength"
+    if rep.check(of is not None, R, "anchor:OLF::format", "OptimisingLineFormatter::format not found"):
+        from panic import dominating_conditions
+        fms = of.calls_to(OLF + "multiline_strings::StringFormatter::format_multiline_strings")
+        makers = [bb for bb, i, s in of.stmts() if s["k"] == "assign" and s["rv"]["k"] == "aggregate" and norm(s["rv"].get("adt", "")) == TL]
+        mk_cl = [b2 for b2 in prog.closures_of(of.npath) if any(s["k"] == "assign" and s["rv"]["k"] == "aggregate" and norm(s["rv"].get("adt", "")) == TL for _, _, s in b2.stmts())]
+        fls = of.calls_to(OLF + "InternalOptimisingLineFormatter::format_line")
+        stores = [a for a in prog.field_accesses(TL, "content", within={of.npath}) if a[3].startswith("write")]
+        ok = len(fms) == 1 and len(fls) == 2 and len(mk_cl) == 1
+        good = False
+        if ok:
+            for (b2, bb, i, kind, s) in stores:
+                conds = dominating_conditions(of, bb)
+                after_rewrite = any(c[0] == "call" and c[1].endswith("format_multiline_strings") and c[3] is True for c in conds)
+                val = canon(of, s["rv"]["op"]) if s["rv"]["k"] in ("cast", "use") else ""
+                from_content = "len(get_content(" in val and "get_token(" in val
+                in_token_loop = any(bb in L and any((c.callee or "").endswith("Iterator::next") and "get_tokens(" in canon(of, c.args[0]) for c in of.calls() if c.bb in L) for L in of.loops().values())
+                reflow = [f for f in fls if of.can_reach_avoiding(bb, {f.bb}, set()) and not of.can_reach_avoiding(f.bb, {bb}, set())]
+                if after_rewrite and from_content and in_token_loop and reflow:
+                    good = True
+        rep.check(ok and good, R, "lengths-refreshed-after-string-rewrite",
+                  "the content lengths cached before wrapping are not re-read (len(get_content())) for the tokens of a line whose multi-line strings were rewritten, before that line is re-flowed — "
+                  "a literal with CRLF interior breaks is then measured longer than the same literal with LF, so CRLF and LF inputs wrap differently (and the result is not a fixpoint)",
+                  where="%s:%d" % (of.file, of.line), instance={"cache": "InternalOptimisingLineFormatter.token_lengths", "refresh": "token_length.content = token.get_content().len()", "stores_found": len(stores)})
     # ---------------------------------------------------------------- C09.c config enum mapping
     R = "C09.c"
     cv = [b for k, b in prog.bodies.items() if b.crate == "pasfmt.lib" and "LineEnding" in k and k.endswith("::from")]
